@@ -122,6 +122,10 @@ def run_property(prop: str, tier: str, rules_fn, meta: dict) -> int:
     try:
         ctx = Ctx(prop, tier)
         rules_fn(ctx)
+        if tier == "thorough" and not os.environ.get("SPVERIF_NESTED"):
+            from .thorough import adequacy, engine_crosscheck
+            engine_crosscheck(ctx)
+            adequacy(ctx, prop)
         for rule, n in ctx.floors.items():
             got = ctx.counts.get(rule, 0)
             if got < n:
